@@ -113,6 +113,12 @@ pub struct Config
     /// When non-empty, only verdicts of these properties (and machinery verdicts `*`) are kept for this configuration:
     /// the universe contains behaviour that the other rules of the monitor do not model.
     pub only_props: Vec<&'static str>,
+    /// `App::add_reactor` calls (`app_reactors`) are made before `ReactPlugin` is added to the App.
+    pub plugin_late: bool,
+    /// A plain Bevy observer on `OnInsert` of `React<CA>`: whenever component A is inserted on entity 0 it inserts the
+    /// same value on entity 1 through `ReactCommands::insert` (the observer's commands are applied between the insert and
+    /// the command that schedules the insert's own reactions).
+    pub mirror_observer: bool,
     /// Frame mode: chosen top-level operations are issued by plain Bevy systems of the App's `Update` schedule, up
     /// to `.0` systems per frame, `.1` = chained (a sync point between consecutive systems) or unordered (deferred
     /// commands applied together); `max_top` is then the number of frames and every frame is a full `App::update()`.
@@ -174,6 +180,8 @@ impl Config
             update_after_top: false,
             final_gc: false,
             only_props: vec![],
+            plugin_late: false,
+            mirror_observer: false,
             auto_ents: vec![],
             actor_signals: vec![],
             world_route: false,
